@@ -12,7 +12,7 @@ From Coq Require Import ZArith Bool String List.
 Require Import NixV.Base.Prelude NixV.Base.F64 NixV.Gen.GenDimensions.
 Require Import NixV.Access.Retrieval NixV.Access.RetrievalSpec NixV.Access.RetrievalAxis NixV.Access.RetrievalDomain
                NixV.Access.RetrievalAssemble NixV.Access.RetrievalTag NixV.Access.RetrievalOracle
-               NixV.Access.RetrievalProofs NixV.Access.RetrievalClosed.
+               NixV.Access.RetrievalProofs NixV.Access.RetrievalClosed NixV.Access.RetrievalIds.
 Import ListNotations.
 Local Open Scope Z_scope.
 
@@ -114,6 +114,14 @@ Theorem oracle_refuse incl a ws :
   spec_answer incl a ws = Refuse -> forall off cnt, ~ region_is incl (a_dims a) (a_shape a) ws off cnt.
 Proof. exact (RetrievalOracle.oracle_refuse incl a ws). Qed.
 Print Assumptions oracle_refuse.
+
+(** the element ids the oracle prints (selected pointwise on the coordinates among ALL elements) are the
+    elements of the region's box in row-major order - what a DataView (offset, count) delivers *)
+Theorem spec_ids_region incl a ws off cnt : dims_dom (a_dims a) (a_shape a) = true ->
+  region_is incl (a_dims a) (a_shape a) ws off cnt ->
+  spec_ids incl a ws = view_ids (a_shape a) off cnt.
+Proof. exact (RetrievalIds.spec_ids_region incl a ws off cnt). Qed.
+Print Assumptions spec_ids_region.
 
 (** ... and the repaired model answers what the oracle answers, on the oracle's whole domain *)
 Theorem tag_meets_oracle t a m :
